@@ -31,6 +31,9 @@ kani_unit("fri_verifier", "winter-fri", "fri/src/verifier/mod.rs", "kani/fri_ver
     H("fri_verifier_remainder_binding_contract", ["C05", "C03"], ["FriVerifier::verify", "FriVerifier::verify_generic", "VerifierChannel::read_remainder", "eval_horner"],
       "zero-layer schedule, one query: verify == Ok implies hash_elements(remainder) == the last absorbed commitment and remainder(x_pos) == queried evaluation",
       bounded="zero FRI layers, one query, remainder of 1 symbolic coefficient; commitment, evaluation, position symbolic"),
+    H("fri_verifier_remainder_missing_commitment_contract", ["C05", "C03"], ["FriVerifier::new", "FriVerifier::verify_generic"],
+      "zero-layer schedule with an empty commitment list: the (consistent) remainder is refused - it is bound to no commitment",
+      bounded="zero FRI layers, one query, remainder of 1 symbolic coefficient"),
     H("fri_verifier_remainder_degree_contract", ["C05"], ["FriVerifier::verify", "FriVerifier::verify_generic"],
       "a remainder longer than the degree bound is refused with RemainderDegreeMismatch; mismatching position / evaluation counts are refused",
       bounded="zero FRI layers, 2-coefficient remainder against bound 1"),
@@ -77,3 +80,8 @@ kani_unit("fri_proof", "winter-fri", "fri/src/proof.rs", "kani/fri_proof.rs", "p
 for u in UNITS:
     if u["unit"] == "fri_proof":
         u["trusted"] = [DBL]
+
+native_unit("fri_native", "winter-fri", "fri", "native/fri_bounded.rs", ["C15", "C05"],
+            ["FriProver::build_layers", "FriProver::build_proof", "FriVerifier::new", "FriVerifier::verify", "apply_drp", "fold_positions", "FriProof (de)serialization"],
+            "honest FRI proofs are accepted after serialization for every grid configuration (reused prover, degree == bound / 0 / low, 1..40 queries incl. repeated positions); polynomials above the claimed bound and proofs with a flipped bit are refused; nothing panics",
+            "NATIVE EXECUTION, not a proof: trace lengths 2^3..2^7 x blowup {2,4,8} x folding {2,4,8,16} x remainder degree {0,1,3,7,15,31} (well-formed schedules) over the 128- and 64-bit fields with Blake3_256, seeded polynomials; 5 configurations x all admissible bounds for the above-bound part")
